@@ -933,6 +933,25 @@ def active_dims_order(idx: ProgramIndex, rep: Report):
                     "`%s` selects the columns between two entries of active_dims: for a permuted list ([0, 2, 1, 3]) or one with repeats the columns come out in ascending order, so ARD lengthscale i scales another column than active_dims[i] (0.15-0.57 off for RBF / Matern / RQ with ARD)" % " ".join(src(bad[0]).split())[:70], {})
     rep.add("C06-13", "gpytorch:<functions that read active_dims>", "gpytorch/", True, "%d function(s) inspected" % n, {"functions": n}, trivial=True)
     rep.floor("C06-13", "functions that read active_dims", n, 5)
+    # ... and the list that is stored is the caller's list: between the constructor argument and the registered buffer only
+    # order-preserving conversions (torch.tensor / as_tensor / .long() / .to()); unique / sort / set re-order (and drop) entries
+    K = kernel_cls(idx)
+    init = idx.method(K, "__init__", own=True)
+    REORDER = {"unique", "unique_consecutive", "sort", "sorted", "argsort", "set", "flip", "msort", "frozenset"}
+    regs = [c for c in calls_in(init.node) if isinstance(c.func, ast.Attribute) and c.func.attr == "register_buffer" and c.args and const_str(c.args[0]) == "active_dims"]
+    if not regs:
+        raise AnalysisError("C06-13: Kernel.__init__ no longer registers the active_dims buffer (anchor)")
+    bad_ops = []
+    for a in ast.walk(init.node):
+        if isinstance(a, ast.Assign) and any(isinstance(t, ast.Name) and t.id == "active_dims" for t in a.targets):
+            for c in ast.walk(a.value):
+                if isinstance(c, ast.Call):
+                    nm = c.func.attr if isinstance(c.func, ast.Attribute) else (c.func.id if isinstance(c.func, ast.Name) else "")
+                    if nm in REORDER:
+                        bad_ops.append((a.lineno, nm))
+    rep.add("C06-13", "gpytorch.kernels.kernel:Kernel.__init__[active_dims stored as given]", init.where, not bad_ops,
+            "the buffer holds the caller's list in the caller's order" if not bad_ops else
+            "; ".join("line %d: `%s` re-orders (and de-duplicates) the list before it is stored: active_dims=[3, 0, 2] selects columns [0, 2, 3], ARD lengthscale i no longer belongs to column active_dims[i]" % b for b in bad_ops), {})
 
 
 # ---- C06-14 --------------------------------------------------------------------------------------------------------
